@@ -137,6 +137,16 @@ def prefix_antisym(a, b):
     return z3.Implies(z3.And(z3.PrefixOf(a, b), z3.PrefixOf(b, a)), a == b)
 
 
+def suffix_tail(K, rem, n):
+    """a tail of a suffix of K is a suffix of K"""
+    suf = lambda r: z3.And(z3.Length(r) <= z3.Length(K), tail(K, z3.Length(K) - z3.Length(r)) == r)
+    return z3.Implies(z3.And(suf(rem), n >= 0, n <= z3.Length(rem)), suf(tail(rem, n)))
+
+
+def concat_empty(a, b):
+    return z3.Implies(z3.Length(a) == 0, z3.Concat(a, b) == b)
+
+
 def code_slice_eq(p, a):
     """a[:len(p)] == p exactly as the interpreter builds it for the Python expression (with slice clamping)"""
     from pyvc import ops
@@ -153,7 +163,7 @@ ALL = {
     "prefix_excl": (prefix_excl, 3), "prefix_trans": (prefix_trans, 3), "eq_cons": (eq_cons, 2), "eq_strip": (eq_strip, 3),
     "prefix_is_slice": (prefix_is_slice, 2), "prefix_is_code_slice": (prefix_is_code_slice, 2),
     "split3": (split3, "si"), "split2": (split2, "si"), "tail_tail": (tail_tail, "sii"),
-    "prefix_antisym": (prefix_antisym, 2), "lcp_prefix": (lcp_prefix, "ssi"), "tail_concat": (tail_concat, "ssi"), "nth_concat": (nth_concat, 2),
+    "concat_empty": (concat_empty, 2), "suffix_tail": (suffix_tail, "ssi"), "prefix_antisym": (prefix_antisym, 2), "lcp_prefix": (lcp_prefix, "ssi"), "tail_concat": (tail_concat, "ssi"), "nth_concat": (nth_concat, 2),
     "prefix_concat_left": (prefix_concat_left, 3), "eq_concat_prefix": (eq_concat_prefix, 3),
     "proper_prefix_blocks": (proper_prefix_blocks, 3),
     "slice_slice": (slice_slice, "sii"), "prefix_nth": (prefix_nth, "ssi"), "code_slice_props": (code_slice_props, "si"), "prefix_concat": (prefix_concat, 3), "prefix_unit": (prefix_unit, "is"), "eq_concat": (eq_concat, 3),
